@@ -1445,6 +1445,8 @@ class SubstitutionInverse(Rule):
 
         lower = full_normalize(lower, ctx)
         upper = full_normalize(upper, ctx)
+        if not is_monotonic_on(subst_deriv, self.var_name, lower, upper):
+            raise AssertionError("SubstitutionInverse: %s is not monotonic on the new interval" % self.var_subst)
         if lower.is_evaluable() and upper.is_evaluable() and expr.eval_expr(lower) > expr.eval_expr(upper):
             return -expr.Integral(self.var_name, upper, lower, new_e_body)
         else:
